@@ -1285,7 +1285,7 @@ def _fix_aux(c, ax):
 
 
 def plan(tier):
-    return progrun.plan_cases(tier, 9600, 150000)
+    return progrun.plan_cases(tier, 9600, 120000)
 
 
 # Required classes describe what the GENERATOR reaches (every producer, every follow-on, empty blocks) plus the
